@@ -791,7 +791,7 @@ def binding(ctx):
             a, b = ch[0][2][0], ch[0][2][1]
             oks = is_call(a, 'iter::once') and any(strip(x) == ('field', ('arg', 1, 'self'), 'path') or (isinstance(x, tuple) and x[0] == 'field' and x[2] == 'path') for x in walk(a)) and \
                 bool(find_calls(b, 'Module::uses')) and not any(re.search(r'Iterator::(rev|skip|take|filter|step_by)$', c_[3]) for c_ in calls_in(e))
-    ctx.ob(['C11'], 'R-EXPR', 'C11-D3|scope-order', oks, 'scope() = own module path followed by the uses in source order', loc(sc[0].span) if sc else '')
+    ctx.ob(['C11', 'C19'], 'R-EXPR', 'C11-D3|scope-order', oks, 'scope() = own module path followed by the uses in source order', loc(sc[0].span) if sc else '')
     us = [f for f in P.fns.values() if f.id.endswith('module::Module::uses')]
     oku = bool(us) and len(us[0].exits()) == 1 and any(isinstance(x, tuple) and x[0] == 'field' and x[2] == 'uses' for x in walk(us[0].exits()[0]['expr']))
     ctx.ob(['C11'], 'R-EXPR', 'C11-D3|uses-source', oku, 'uses() is the parsed module\'s `uses` list itself', loc(us[0].span) if us else '')
